@@ -23,19 +23,27 @@ func registerStd(p *Program) {
 	// ---- sync/atomic function forms ----
 	for _, ty := range []string{"Int32", "Int64", "Uint32", "Uint64", "Uintptr", "Pointer"} {
 		reg("sync/atomic.Load"+ty, func(e *Exec, _ *frame, _ *ssa.Function, a []Value) (Value, bool) {
+			e.atomicDepth++
+			defer func() { e.atomicDepth-- }()
 			return e.load(a[0].(Ptr)), true
 		})
 		reg("sync/atomic.Store"+ty, func(e *Exec, _ *frame, _ *ssa.Function, a []Value) (Value, bool) {
+			e.atomicDepth++
+			defer func() { e.atomicDepth-- }()
 			e.store(a[0].(Ptr), a[1])
 			return nil, true
 		})
 		reg("sync/atomic.Swap"+ty, func(e *Exec, _ *frame, _ *ssa.Function, a []Value) (Value, bool) {
+			e.atomicDepth++
+			defer func() { e.atomicDepth-- }()
 			old := e.load(a[0].(Ptr))
 			e.store(a[0].(Ptr), a[1])
 			return old, true
 		})
 		ty := ty
 		reg("sync/atomic.CompareAndSwap"+ty, func(e *Exec, _ *frame, fn *ssa.Function, a []Value) (Value, bool) {
+			e.atomicDepth++
+			defer func() { e.atomicDepth-- }()
 			old := e.load(a[0].(Ptr))
 			t := fn.Signature.Params().At(1).Type()
 			if e.Branch(e.equal(t, old, a[1])) {
@@ -46,6 +54,8 @@ func registerStd(p *Program) {
 		})
 		if ty != "Pointer" {
 			reg("sync/atomic.Add"+ty, func(e *Exec, _ *frame, _ *ssa.Function, a []Value) (Value, bool) {
+				e.atomicDepth++
+				defer func() { e.atomicDepth-- }()
 				nv := sym.Add(e.load(a[0].(Ptr)).(*T), a[1].(*T))
 				e.store(a[0].(Ptr), nv)
 				return nv, true
@@ -62,6 +72,7 @@ func registerStd(p *Program) {
 	registerJSON(p)
 	registerJDoc(p)
 	registerJSONSchema(p)
+	registerTrace(p)
 	registerGob(p)
 
 	// ---- regexp: only what jsonreference/internal uses ----
